@@ -107,7 +107,7 @@ void h_to_msec(void)
 			/* ms = 1000*sec + q with q*10^6 - nsec in [0, 10^6): stated on the 32-bit remainder */
 			int q = ms - 1000 * (int)rel.tv_sec;
 			__CPROVER_assert(q >= 0 && q <= 1000, "[C04] sub-second part of the millisecond timeout is in range");
-			__CPROVER_assert((long)q * 1000000 >= rel.tv_nsec, "[C04] rounded up: the wait is never shorter than the time to the deadline (no busy loop before expiry)");
+			__CPROVER_assert((long)q * 1000000 >= rel.tv_nsec, "[C04,C07] rounded up: the wait is never shorter than the time to the deadline (no busy loop of zero-timeout polls before expiry)");
 			__CPROVER_assert((long)q * 1000000 - rel.tv_nsec < 1000000, "[C04] rounded up by less than one millisecond: the loop never oversleeps beyond that");
 		}
 	}
